@@ -117,6 +117,9 @@ func c17OwnSpecs(quick bool) []*wSpec {
 			{Prop: "C17", Name: "C17-bigcoin-feechange-q", Cfg: wworld.Config{FeeA: 0, Wallets: []wworld.WalletCfg{{Default: "a"}, {Default: "a"}}}, Init: []string{"give|0|16,8", "rotate|a|100"}, Menu: c17RotMenu, Depth: 2},
 			// two rotations noticed by the running wallet, then the wallet is closed and opened again
 			{Prop: "C17", Name: "C17-rotated-twice-reload-q", Cfg: two, Init: []string{"mint|0|4", "rotate|a|100", "mint|0|4", "rotate|a|0", "mint|0|4", "reload|0"}, Menu: c17RotMenu, Depth: 1},
+			// a wallet that trusts two mints holds proofs of a rotated-out keyset of one of them, notices the rotation, is closed
+			// and opened again: per-mint balances, spends at either mint
+			{Prop: "C17", Name: "C17-two-mints-rotation-reload-q", Cfg: wworld.Config{FeeA: 0, FeeB: 0, TwoMints: true, Wallets: []wworld.WalletCfg{{Default: "a"}, {Default: "a"}, {Default: "b"}}}, Init: []string{"mint|2|8", "mint|0|16", "send|0|3|0", "recv|2|0|0", "rotate|a|0", "send|0|5|0", "recv|2|0|0", "reload|2"}, Menu: c17RotMenu, Depth: 1},
 			{Prop: "C17", Name: "C17-rotated-fee100-q", Cfg: two, Init: []string{"mint|0|7", "rotate|a|100", "mint|0|8"}, Menu: c17RotMenu, Depth: 3},
 		}
 	}
@@ -131,6 +134,7 @@ func c17OwnSpecs(quick bool) []*wSpec {
 		{Prop: "C17", Name: "C17-bigcoin-feechange", Cfg: wworld.Config{FeeA: 0, Wallets: []wworld.WalletCfg{{Default: "a"}, {Default: "a"}}}, Init: []string{"give|0|16,8", "rotate|a|100"}, Menu: c17RotMenu, Depth: 3},
 		{Prop: "C17", Name: "C17-bigcoin-feedrop", Cfg: wworld.Config{FeeA: 1000, Wallets: []wworld.WalletCfg{{Default: "a"}, {Default: "a"}}}, Init: []string{"give|0|16,8", "rotate|a|0"}, Menu: c17RotMenu, Depth: 3},
 		{Prop: "C17", Name: "C17-rotated-twice-reload", Cfg: two, Init: []string{"mint|0|4", "rotate|a|100", "mint|0|4", "rotate|a|0", "mint|0|4", "reload|0"}, Menu: c17RotMenu, Depth: 3},
+		{Prop: "C17", Name: "C17-two-mints-rotation-reload", Cfg: three(0), Init: []string{"mint|2|8", "mint|0|16", "send|0|3|0", "recv|2|0|0", "rotate|a|0", "send|0|5|0", "recv|2|0|0", "reload|2"}, Menu: c17RotMenu, Depth: 2},
 		{Prop: "C17", Name: "C17-rotated-fee100", Cfg: two, Init: []string{"mint|0|7", "rotate|a|100", "mint|0|8"}, Menu: c17RotMenu, Depth: 4},
 		{Prop: "C17", Name: "C17-rotated-fee1000to100", Cfg: wworld.Config{FeeA: 1000, Wallets: []wworld.WalletCfg{{Default: "a"}, {Default: "a"}}}, Init: []string{"mint|0|7", "rotate|a|100", "mint|0|8"}, Menu: c17RotMenu, Depth: 4},
 	}
